@@ -32,6 +32,11 @@ def gen_history(ctx, max_dt):
     for _ in range(nt):
         nr = rng.choice([0, 0, 1, 2, 3, maxr])
         rs = [(t(), rng.randint(0, 3)) for _ in range(nr)]
+        seen = [r for h in hist for r in h["readings"]] + rs
+        if seen and rng.random() < 0.35:
+            # a reading that was delivered before (in this tick's list or in an earlier tick) is delivered again: the filter
+            # goes back to its timestamp, applies it and holds there, like for any other reading
+            rs.insert(rng.randint(0, len(rs)), rng.choice(seen))
         out = t()
         if hist and rng.random() < 0.3:
             out, rs = hist[-1]["out"], []          # the same output time asked again, with another control
@@ -101,8 +106,15 @@ def run(ctx):
     for n in range(8 if ctx.quick else 60):
         k = ctx.rng.randrange(len(rh.MAXDTS))
         t0, hist = gen_history(ctx, rh.MAXDTS[k])
+        held = t0
         for t in hist:
             t["control"] = ctx.rng.random() < 0.5
+            if ctx.rng.random() < 0.35:
+                # asked for exactly the time the estimate is held at (no time to cover), with no reading or one stamped at that instant
+                t["out"] = held
+                t["readings"] = [] if ctx.rng.random() < 0.5 else [(held, ctx.rng.randint(0, 3))]
+            if t["readings"]:
+                held = t["readings"][-1][0]
         hc = ctx.rng.random() < 0.7
         ctl_cases.append((k, t0, hist, hc))
         idx[("ctl", n)] = drv.add({"op": "ticks", "runtime": "py", "maxdt": rh.fbits(rh.MAXDTS[k]), "t0": rh.fbits(t0),
